@@ -25,8 +25,8 @@ ELEMS_T = ELEMS_Q + ['"b"', "2", "1.5", 'frozenset({"a", 1})', "(2,)"]
 
 
 def bounds(tier):
-    return {"elements": len(ELEMS_Q if tier == "quick" else ELEMS_T), "max_size": 3 if tier == "quick" else 4,
-            "seeds": "0..5 with black, 0..2 without black / with format-command" if tier == "quick" else list(range(32)), "formatters": ["black", "noblack", "cmd"]}
+    return {"elements": len(ELEMS_Q if tier == "quick" else ELEMS_T), "max_size": 3 if tier == "quick" else "4 (size 4: four insertion orders, display / incremental / frozenset only)",
+            "seeds": "0..5 with black, 0..2 without black / with format-command" if tier == "quick" else "0..15 with black, 0..7 without black / with format-command", "formatters": ["black", "noblack", "cmd"]}
 
 
 def _sites(tier):
@@ -36,7 +36,7 @@ def _sites(tier):
     sites = []
     for k in range(0, K + 1):
         for comb in itertools.combinations(E, k):
-            if k == 4 and tier != "quick" and sum(1 for c in comb if "frozenset" in c or "(" in c) < 2:
+            if k == 4 and tier != "quick" and sum(1 for c in comb if "frozenset" in c or "(" in c) < 3:
                 continue
             key = "set:" + "|".join(sorted(comb))
             allperms = list(itertools.permutations(comb))
@@ -44,11 +44,13 @@ def _sites(tier):
                 if sum(1 for c in comb if c[0] in "(fN") < 2:
                     continue
                 allperms = [allperms[0], allperms[3], allperms[4]]  # the three rotations
+            if k == 4:
+                allperms = [allperms[0], allperms[9], allperms[16], allperms[23]]  # four spread-out orders (incl. the reverse)
             for perm in allperms:
                 sites.append((key, ["v = {%s}" % ", ".join(perm) if perm else "v = set()"]))
                 if len(perm) >= 2 and (tier != "quick" or len(perm) == 2 or perm[0] < perm[1]):
                     sites.append((key, ["v = set()"] + ["v.add(%s)" % e for e in perm]))
-                    if tier != "quick":
+                    if tier != "quick" and k <= 3:
                         sites.append((key, ["v = set([%s])" % ", ".join(perm)]))
                         sites.append((key, ["v = {%s} | {%s}" % (perm[0], ", ".join(perm[1:]))]))
                 fkey = "f" + key
@@ -77,11 +79,13 @@ def _file(sites):
 
 
 def build(tier, seed):
-    seeds = list(range(8 if tier == "quick" else 32))
+    seeds = list(range(8 if tier == "quick" else 16))
     tasks = []
     for fmt in ("black", "noblack", "cmd"):
         for hs in seeds:
             if tier == "quick" and (hs >= 6 or (fmt != "black" and hs >= 3)):
+                continue
+            if tier != "quick" and fmt != "black" and hs >= 8:
                 continue
             tasks.append({"fmt": fmt, "hs": hs, "tier": tier})
     return tasks
